@@ -52,9 +52,12 @@ MAX_PATHS = 400
 def paths(fd, params_opaque=True):
     out = []
     try:
-        _block(fd.body, [Path()], out)
+        live = _block(fd.body, [Path()], out)
     except _Unsupported:
         return None
+    for p in live:      # falling off the end returns None
+        p.kind, p.value, p.node = 'return', ast.Constant(value=None), fd
+        out.append(p)
     return out
 
 
@@ -213,3 +216,39 @@ def paths_with_env(fd, env):
         p.kind, p.value = 'return', ast.Constant(value=None)
         out.append(p)
     return out
+
+
+def eval_cond(e, leaf):
+    """three-valued evaluation of a condition: leaf(expr) gives True/False/None for atomic expressions; and/or/not and the
+    negated comparison operators are interpreted (short-circuit)"""
+    if isinstance(e, ast.BoolOp):
+        unknown = False
+        for v in e.values:
+            r = eval_cond(v, leaf)
+            if r is None:
+                unknown = True
+                continue
+            if isinstance(e.op, ast.And) and not r:
+                return False
+            if isinstance(e.op, ast.Or) and r:
+                return True
+        return None if unknown else isinstance(e.op, ast.And)
+    if isinstance(e, ast.UnaryOp) and isinstance(e.op, ast.Not):
+        r = eval_cond(e.operand, leaf)
+        return None if r is None else not r
+    if isinstance(e, ast.Compare) and len(e.ops) == 1 and isinstance(e.ops[0], (ast.IsNot, ast.NotEq, ast.NotIn)):
+        flip = {ast.IsNot: ast.Is, ast.NotEq: ast.Eq, ast.NotIn: ast.In}[type(e.ops[0])]
+        r = eval_cond(ast.Compare(left=e.left, ops=[flip()], comparators=e.comparators), leaf)
+        return None if r is None else not r
+    if isinstance(e, ast.Constant) and isinstance(e.value, bool):
+        return e.value
+    return leaf(e)
+
+
+def consistent(path, leaf):
+    """can the path be taken under the valuation described by leaf? (False only when some branch decision is contradicted)"""
+    for t, pol in path.conds:
+        r = eval_cond(t, leaf)
+        if r is not None and r != pol:
+            return False
+    return True
